@@ -1073,6 +1073,11 @@ Definition check (tag : Z) (inp obs : list Z) : verdict :=
   | 11, [v; x; y; z] => verdict_of obs (model_11 (dec_struct v x y z)) (spec_11 (dec_struct v x y z))
   | 12, [a] => verdict_of obs (model_12 (nz a)) (spec_12 (nz a))
   | 13, [b] => verdict_of obs (model_13 (nz b)) (spec_13 (nz b))
+  | 14, [k; s0; a; c] =>
+      (* every conversion path to the structured form and back to raw: all yield the canonical
+         bytes; the structured value is a fixed point of every conversion *)
+      let cb := enc_bytes (canon (nz s0, nz a, nz c)) in
+      verdict_of obs (cb ++ cb ++ cb ++ cb ++ cb ++ [1]) (cb ++ cb ++ cb ++ cb ++ cb ++ [1])
   | 20, [k; s0; a; c] =>
       (* the accessor list in method syntax on the concrete type, then a flag: the same list
          through a generic parameter (always the trait's methods) is identical *)
@@ -1186,10 +1191,12 @@ Definition check (tag : Z) (inp obs : list Z) : verdict :=
       | _ => bad_record
       end
   | 191, tidx :: f =>
-      let model := model_191 tidx f in
-      mkV (listZ_eqb obs model) (Z.eqb (last obs 0) 1) model
+      (* ... ++ [map-form round trip equal; positional-form round trip equal] *)
+      let model := model_191 tidx f ++ [1] in
+      mkV (listZ_eqb obs model) (Z.eqb (last obs 0) 1 && Z.eqb (last (removelast obs) 0) 1) model
   | 170, kind :: timeout :: n1 :: rest =>
       let '(ops1, ops2) := take_ops (Z.to_nat n1) rest in
-      check_170 (ctor_kind kind) (ctor_timeout kind timeout) ops1 ops2 obs
+      (* hundreds digit of the kind: the reset under test is called several times in a row *)
+      check_170 (ctor_kind (kind mod 100)) (ctor_timeout (kind mod 100) timeout) ops1 ops2 obs
   | _, _ => bad_record
   end.
